@@ -117,6 +117,34 @@ def _dedup_kind(tree, cls_name, meth):
     raise Untranslatable(f"{cls_name}.{meth}: no assignment to actual_devices")
 
 
+SCAN_LISTS = ("actual_user_devices", "_pumps", "_blowers", "_lights", "_sensors", "_binary_sensors")
+
+
+def _scan_updates(tree, cls_name, meth):
+    """how the output scan updates each inventory list of the facade OBJECT: True = rebuilt by assignment,
+    False = grown in place (append / extend / insert / +=), which makes a second scan on the same object accumulate"""
+    fn = find_function(tree, f"{cls_name}.{meth}")
+    how = {}
+    for st in ast.walk(fn):
+        if isinstance(st, ast.Assign):
+            for t in st.targets:
+                if isinstance(t, ast.Attribute) and _is_self(t.value) and t.attr in SCAN_LISTS:
+                    how.setdefault(t.attr, True)
+        elif isinstance(st, ast.AugAssign) and isinstance(st.target, ast.Attribute) and _is_self(st.target.value) and st.target.attr in SCAN_LISTS:
+            how[st.target.attr] = False
+        elif isinstance(st, ast.Call) and isinstance(st.func, ast.Attribute) and st.func.attr in ("append", "extend", "insert") \
+                and isinstance(st.func.value, ast.Attribute) and _is_self(st.func.value.value) and st.func.value.attr in SCAN_LISTS:
+            how[st.func.value.attr] = False
+    missing = [a for a in SCAN_LISTS if a not in how]
+    if missing:
+        raise Untranslatable(f"{cls_name}.{meth}: does not build {missing}")
+    return [(a, how[a]) for a in SCAN_LISTS]
+
+
+def _is_self(e):
+    return isinstance(e, ast.Name) and e.id == "self"
+
+
 def _get_device_shape(tree, cls_name):
     fn = find_function(tree, f"{cls_name}.get_device")
     body = [st for st in fn.body if not (isinstance(st, ast.Expr) and isinstance(st.value, ast.Constant))]
@@ -200,6 +228,10 @@ def gen_device_table():
                "def getDeviceIsLinearSearch : Bool := true\n")
     out.append(f"/-- how each facade de-duplicates the devices found on the outputs -/\ndef asyncDedup : DedupKind := .{_dedup_kind(at, 'GeckoAsyncFacade', '_scan_outputs')}")
     out.append(f"def syncDedup : DedupKind := .{_dedup_kind(st, 'GeckoFacade', 'scan_outputs')}\n")
+    for nm, tree, cls, meth in (("asyncScanUpdates", at, "GeckoAsyncFacade", "_scan_outputs"), ("syncScanUpdates", st, "GeckoFacade", "scan_outputs")):
+        ups = _scan_updates(tree, cls, meth)
+        out.append(f"/-- {cls}.{meth}: (inventory list of the facade object, rebuilt by ASSIGNMENT? - false = grown in place) -/\n"
+                   f"def {nm} : List (String × Bool) := [" + ", ".join(f"({L(a)}, {'true' if b else 'false'})" for a, b in ups) + "]")
     out.append("end GeckoModel.Generated\n")
     return "\n".join(out)
 
